@@ -486,8 +486,77 @@ def _wrap(modname, name, f):
     return g
 
 
+# ------------------------------------------------------------------------------------------------
+# module-level data: the literal tables (atomlib.formfactor, sg.sgdic, symmetry.ROTATIONS ...) must not change while the library is used
+
+DATA_MODULES = ('xfab.atomlib', 'xfab.sg', 'xfab.symmetry', 'xfab.tools', 'xfab.laue', 'xfab.structure', 'xfab.detector', 'xfab.checks',
+                'xfab.parameters')
+_DATA_SNAP = {}
+DATA_EVENTS = []
+
+
+def _data_items(m):
+    for name, o in list(vars(m).items()):
+        if name.startswith('__') or inspect.ismodule(o) or inspect.isfunction(o) or inspect.isclass(o) or callable(o):
+            continue
+        # literal tables only: a container that is EMPTY when the guard is installed is working storage (a lazily filled cache is judged
+        # by the history probe on what it returns, not by the fact that it fills)
+        if isinstance(o, (dict, list, tuple, np.ndarray)) and len(o) > 0:
+            yield name, o
+
+
+def _freeze(o, depth=0):
+    if depth > 6:
+        return '...'
+    if isinstance(o, np.ndarray):
+        return ('nd', o.shape, o.dtype.str, o.tobytes())
+    if isinstance(o, dict):
+        return ('dict', tuple(sorted((repr(k), _freeze(v, depth + 1)) for k, v in o.items())))
+    if isinstance(o, (list, tuple)):
+        return (type(o).__name__, tuple(_freeze(v, depth + 1) for v in o))
+    if isinstance(o, float):
+        return ('f', o.hex() if o == o else 'nan')
+    if isinstance(o, (int, str, bool, complex)) or o is None:
+        return o
+    return ('obj', type(o).__name__)
+
+
+def snapshot_data():
+    import importlib
+    _DATA_SNAP.clear()
+    for mn in DATA_MODULES:
+        try:
+            m = importlib.import_module(mn)
+        except Exception:
+            continue
+        for name, o in _data_items(m):
+            try:
+                _DATA_SNAP[(mn, name)] = _freeze(o)
+            except Exception:
+                pass
+
+
+def check_data():
+    """compare the module-level tables with the snapshot taken by install(); a difference is an event (once per name)"""
+    import importlib
+    for (mn, name), snap in list(_DATA_SNAP.items()):
+        try:
+            m = importlib.import_module(mn)
+            cur = _freeze(getattr(m, name))
+        except Exception:
+            cur = ('missing',)
+        if cur != snap and not any(e['fn'] == '%s.%s' % (mn.split('.')[-1], name) for e in DATA_EVENTS):
+            what = 'changed'
+            if isinstance(snap, tuple) and isinstance(cur, tuple) and snap[:1] == ('dict',) and cur[:1] == ('dict',):
+                a, b = dict(snap[1]), dict(cur[1])
+                ch = sorted(k for k in set(a) | set(b) if a.get(k) != b.get(k))
+                what = 'entries changed/added/removed: %s' % ', '.join(ch[:8])
+            DATA_EVENTS.append({'fn': '%s.%s' % (mn.split('.')[-1], name), 'what_changed': what})
+
+
 def install():
     import importlib
+    snapshot_data()
     for mn in MODULES:
         try:
             m = importlib.import_module(mn)
@@ -507,6 +576,12 @@ def uninstall():
 
 def violations():
     out, seen = [], set()
+    check_data()
+    for e in DATA_EVENTS:
+        out.append({'fn': e['fn'], 'purity': 'module-data', 'known_id': None,
+                    'what': 'a module-level table of the library changed while the library was being used (%s): results now depend on the '
+                            'calls made earlier in the process' % e['what_changed'],
+                    'observed': e['what_changed'], 'expected': 'module-level tables are constants'})
     for e in EVENTS:
         k = (e['fn'], e['arg_index'])
         if k in seen:
@@ -547,6 +622,10 @@ def violations():
 
 def replay(v):
     """re-run a stored purity violation against the implementation; 1 = still violated"""
+    if v.get('purity') == 'module-data':
+        print('replay %s (module-data): the stored event names the table that changed during the run (%s); re-run the check to reproduce the '
+              'call history' % (v['fn'], v.get('observed')))
+        return 1
     import importlib
     modname, name = v['fn'].split('.')
     m = importlib.import_module('xfab.' + modname)
